@@ -346,6 +346,16 @@ fn gen_inputs(family: &str, rng: &mut Rng, n: usize, seeds: &[String]) -> Vec<St
                 v.push(mls_family_case(rng));
             }
         }
+        "directives" => {
+            for _ in 0..n {
+                v.push(directive_heavy(rng));
+            }
+        }
+        "soup_enum" => {
+            for i in 0..n {
+                v.push(soup_enum(i));
+            }
+        }
         "lexfam" => {
             v = lex_family(rng, n, false);
         }
@@ -641,6 +651,17 @@ fn main() {
     let a = parse_args(&argv[2..]);
     match argv[1].as_str() {
         "emit" => cmd_emit(&a),
+        "deep" => {
+            // known-finding demo (F2): unbounded recursion depth. Runs in this process; a stack overflow aborts it.
+            let kind = argv.get(2).map(|s| s.as_str()).unwrap_or("paren");
+            let depth: usize = argv.get(3).and_then(|s| s.parse().ok()).unwrap_or(200000);
+            let input = match kind {
+                "begin" => "begin ".repeat(depth),
+                _ => "(".repeat(depth),
+            };
+            let out = stages::run_real(&input, &Cfg::default(), &[]).0;
+            println!("deep-ok {}", out.len());
+        }
         other => {
             eprintln!("unknown command {other}");
             std::process::exit(2);
